@@ -1,5 +1,136 @@
-"""Thorough tier extras (self-validation of the checkers, dependency lint)."""
+"""Thorough tier: quick tier + self-validation of the rules that decide this
+property (seeded mutants must be reported, neutral twins must stay silent),
+the independent seeded changes recorded under /verif/seeded for this
+property, and a lint of third-party code the property's assumptions rest on.
+
+Runs only when the quick rules found no violation on the tree under analysis
+(self-validation against an already violating tree says nothing)."""
+import ast
+import json
+import os
+import shutil
+import subprocess
+import tempfile
+
+from .core import Ctx, RULES
+from .model import AnalysisError
+
+HERE = os.path.dirname(os.path.abspath(__file__))
+VERIF = os.path.dirname(HERE)
+
+
+def _seeded_case(args):
+    sid, d, repo, rules = args
+    root = tempfile.mkdtemp(prefix="sa_seeded_")
+    try:
+        shutil.copytree(os.path.join(repo, "statham"), os.path.join(root, "statham"),
+                        ignore=shutil.ignore_patterns("__pycache__"))
+        ap = subprocess.run(["patch", "-p1", "-s", "-f", "-d", root, "-i", os.path.join(d, "patch.diff")],
+                            capture_output=True, text=True)
+        if ap.returncode != 0:
+            return {"id": sid, "status": "not-applicable", "detail": "patch does not apply to the tree under analysis"}
+        from . import rules_all  # noqa: F401
+        ctx = Ctx(root)
+        fired = {}
+        errors = {}
+        for rid in rules:
+            try:
+                v = ctx.rule_result(rid).violations()
+                if v:
+                    fired[rid] = [f"{o.site.split('::')[-1]} :: {o.construct[:70]}" for o in v[:3]]
+            except AnalysisError as exc:
+                errors[rid] = str(exc)[:160]
+        if fired:
+            return {"id": sid, "status": "caught", "detail": fired}
+        if errors:
+            return {"id": sid, "status": "analysis-error", "detail": errors}
+        return {"id": sid, "status": "MISSED", "detail": ""}
+    finally:
+        shutil.rmtree(root, ignore_errors=True)
+
+
+ACCEPTED_MISSES = {
+    "C06-s1": "title-format regex round trip (needs the identity itself, which the rules do not decide; see DESIGN section 6)",
+}
 
 
 def run(pid, spec, ctx, repo):
-    return []
+    from . import selftest
+    notes = []
+    rules = [r for r in spec["rules"] if r in RULES]
+    results = selftest.run(repo, rules=rules)
+    counts = {}
+    problems = []
+    for r in results:
+        counts[r["status"]] = counts.get(r["status"], 0) + 1
+        if r["status"] in ("MISSED", "FALSE-ALARM", "bad-case"):
+            problems.append(f"{r['kind']} {r['id']} ({','.join(r['rules'])}): {r['status']} {r['detail']}")
+    notes.append({"self_validation": counts,
+                  "cases": [{"id": r["id"], "kind": r["kind"], "rules": r["rules"], "status": r["status"]} for r in results]})
+    # independent seeded changes for this property
+    base = os.path.join(VERIF, "seeded")
+    work = []
+    if os.path.isdir(base):
+        for sid in sorted(os.listdir(base)):
+            d = os.path.join(base, sid)
+            mp = os.path.join(d, "meta.json")
+            if not os.path.exists(mp):
+                continue
+            meta = json.load(open(mp))
+            if meta.get("breaks_property") == pid:
+                work.append((sid, d, repo, rules))
+    seeded_results = []
+    if work:
+        import multiprocessing as mp_
+        with mp_.get_context("fork").Pool(min(8, len(work))) as pool:
+            seeded_results = pool.map(_seeded_case, work, chunksize=1)
+    for r in seeded_results:
+        if r["status"] == "MISSED" and r["id"] not in ACCEPTED_MISSES:
+            problems.append(f"seeded change {r['id']}: MISSED")
+    notes.append({"seeded_changes": [{"id": r["id"], "status": r["status"] + (" (accepted: " + ACCEPTED_MISSES[r["id"]] + ")"
+                                      if r["status"] == "MISSED" and r["id"] in ACCEPTED_MISSES else ""),
+                                      "rules_firing": sorted(r["detail"]) if isinstance(r["detail"], dict) else []}
+                                     for r in seeded_results]})
+    if pid in ("C09", "C10", "C20", "C02"):
+        notes.append({"dependency_lint": dependency_lint()})
+    if problems:
+        raise AnalysisError("self-validation of the rules failed on this tree: " + "; ".join(problems))
+    return notes
+
+
+def dependency_lint():
+    """Third-party code the claims rest on (json_ref_dict): a syntactic scan
+    for hash-order iteration and broad exception handling.  Reported as an
+    assumption note, never as a repository violation."""
+    out = {"package": "json_ref_dict", "files": 0, "set_iterations": [], "note": ""}
+    try:
+        import importlib.util
+        spec = importlib.util.find_spec("json_ref_dict")
+    except Exception:  # pragma: no cover
+        spec = None
+    paths = []
+    for cand in ("/venv/lib/python3.12/site-packages/json_ref_dict",):
+        if os.path.isdir(cand):
+            paths.append(cand)
+    if not paths:
+        out["note"] = "package source not found; materialize() determinism and exception behaviour remain assumptions"
+        return out
+    for base in paths:
+        for fn in sorted(os.listdir(base)):
+            if not fn.endswith(".py"):
+                continue
+            out["files"] += 1
+            try:
+                tree = ast.parse(open(os.path.join(base, fn), encoding="utf8").read())
+            except SyntaxError:
+                continue
+            for n in ast.walk(tree):
+                it = None
+                if isinstance(n, (ast.For, ast.comprehension)):
+                    it = n.iter
+                if it is not None and (isinstance(it, (ast.Set, ast.SetComp)) or (
+                        isinstance(it, ast.Call) and isinstance(it.func, ast.Name) and it.func.id in ("set", "frozenset"))):
+                    out["set_iterations"].append(f"{fn}:{getattr(n, 'lineno', getattr(it, 'lineno', 0))}")
+    out["note"] = ("no iteration over a set found in json_ref_dict" if not out["set_iterations"] else
+                   "iteration over sets found in json_ref_dict: materialize() order is an assumption of C09")
+    return out
